@@ -208,7 +208,8 @@ def main(argv=None):
 
     violation_path = None
     unconfirmed = 0
-    if failures and not harness:
+    # (a mismatch confirmed in a fresh process is reported even if another shard broke the harness)
+    if failures:
         failures.sort(key=lambda fl: len(core.canon(fl["case"])))
         os.makedirs(os.path.join(core.VERIF_ROOT, "replays", "_new"), exist_ok=True)
         for fl in failures[:3]:
@@ -267,10 +268,11 @@ def main(argv=None):
             sys.stderr.write("HARNESS ERROR:\n" + str(h.get("traceback"))[-3000:] + "\n")
             if h.get("case") is not None:
                 sys.stderr.write("case: " + core.canon(h["case"])[:2000] + "\n")
-        sys.exit(2)
     if violation_path:
         print(f"VIOLATION property={prop} replay={violation_path}")
         sys.exit(1)
+    if harness:
+        sys.exit(2)
     if unconfirmed:
         sys.stderr.write(f"INCONCLUSIVE: {unconfirmed} mismatch(es) did not reproduce in a fresh process\n")
         sys.exit(2)
